@@ -6,6 +6,25 @@ import (
 	"verif/sim/kernel"
 )
 
+func init() {
+	ksWarm := kernel.Warmup
+	kernel.Warmup = func(t *testing.T) {
+		if ksWarm != nil {
+			ksWarm(t)
+		}
+		// one complete throw-away session through the proxy (tracing id
+		// generator, parser tables, type registries ... are initialised lazily)
+		r := kernel.NewRNG(4242, 1)
+		for i := 0; i < 3; i++ {
+			plan := &kernel.Plan{Prop: "C04", Seed: 777 + uint64(i), Swarm: map[string]int64{"chunk": 0, "colseed": int64(r.Uint32()), "stranger": 1}}
+			for j, k := range []string{"insert", "insert-multi", "update", "select", "insert-returning", "db-error"} {
+				plan.Ops = append(plan.Ops, kernel.Op{ID: j + 1, Kind: k, A: []int64{int64(j % 2), 1, int64(j % 2), 7}})
+			}
+			C04{}.Run(t, plan, false)
+		}
+	}
+}
+
 // TestVerif is the single entry point of the proxy-side harness binary.
 func TestVerif(t *testing.T) {
 	kernel.WorkerMain(t, map[string]kernel.Property{
